@@ -91,6 +91,11 @@ def run(vc):
             p.prove(f"{tag}:frame", all(s == seg for s, _ in gen.written) and not bus.written, note="only the element's block of ppc['gen'] is written")
         vc.explore(f"_build_pp_pq_element[{element}]", h, max_paths=40)
 
+    run_results(vc)
+    run_gen(vc, ("opf", "pf"))
+
+
+def run_results(vc, tagprefix=""):
     # ---- results of controllable elements -----------------------------------------------------------------------------
     for element in ("sgen", "load", "storage"):
         def h_res(p, element=element):
@@ -126,8 +131,11 @@ def run(vc):
                     meta=dict(part="results", element=element))
         vc.explore(f"write_pq_results_to_element[{element}]", h_res, max_paths=40)
 
-    # ---- gens and ext_grids --------------------------------------------------------------------------------------------
-    for mode in ("opf", "pf"):
+
+
+def run_gen(vc, modes):
+    # ---- gens --------------------------------------------------------------------------------------------------------
+    for mode in modes:
         def h_gen(p, mode=mode):
             cols = {"bus": I, "p_mw": R, "vm_pu": R, "scaling": R, "sn_mva": R, "slack_weight": R, "min_p_mw": R, "max_p_mw": R, "min_q_mvar": R,
                     "max_q_mvar": R, "controllable": B}
